@@ -92,11 +92,17 @@ static J gen_c08_enum (uint64_t seed, uint64_t idx, uint64_t e)
 }
 
 static J gen_c08 (uint64_t seed, uint64_t idx)
-{	static std::vector<const Fmt *> fmts = rdwr_formats () ;
+{	// the sample-granular lossless formats, plus the one block-based encoding the library opens for read/write: 24-bit PAF (blocks of
+	// ten frames). Its sessions keep every write, write-side seek target and file length on block boundaries, where the frame-exact
+	// model applies unchanged; reads and read-side seeks go anywhere.
+	static std::vector<const Fmt *> fmts = [] { std::vector<const Fmt *> v = rdwr_formats () ;
+		for (auto &f : all_formats ()) if (f.major == SF_FORMAT_PAF && f.sub == SF_FORMAT_PCM_24) v.push_back (&f) ; return v ; } () ;
 	if (g_thorough && idx % 2 == 0) return gen_c08_enum (seed, idx, idx / 2) ;
 	J plan = plan_skeleton ("C08", seed, idx) ;
 	GenCtx g (sub_seed (seed, "C08", idx)) ;
 	const Fmt &f = *fmts [idx % fmts.size ()] ;
+	const int64_t G = f.block_codec ? 10 : 1 ;
+	if (G > 1) plan ["cfg"]["gran"] = (long long) G ;
 	std::vector<int> Ts ; for (int T = 0 ; T < 4 ; T++) if (lossless_lowzero (f, T) >= 0) Ts.push_back (T) ;
 	int T = g.rng.pick (Ts) ;
 	int rate = g.pick_rate (f, false) ;
@@ -112,7 +118,7 @@ static J gen_c08 (uint64_t seed, uint64_t idx)
 	if (prepop)
 	{	J o = mkop ("open") ; o ["mode"] = "w" ; ops.push (o) ;
 		int nw = (int) g.rng.range (1, 3) ;
-		for (int k = 0 ; k < nw ; k++) { J w = mkop ("write") ; w ["T"] = stype_name (T) ; if (g.rng.chance (0.5)) w ["fr"] = 1 ; int64_t n = g.rng.range (1, 300) ; w ["n"] = (long long) n ; frames += n ; ops.push (w) ; }
+		for (int k = 0 ; k < nw ; k++) { J w = mkop ("write") ; w ["T"] = stype_name (T) ; if (g.rng.chance (0.5)) w ["fr"] = 1 ; int64_t n = G * g.rng.range (1, 300 / G) ; w ["n"] = (long long) n ; frames += n ; ops.push (w) ; }
 		ops.push (mkop ("close")) ;
 	}
 	{ J o = mkop ("open") ; o ["mode"] = "rw" ; o ["expect"] = "any" ; ops.push (o) ; }
@@ -123,7 +129,7 @@ static J gen_c08 (uint64_t seed, uint64_t idx)
 	{	uint64_t q = g.rng.below (100) ;
 		if (!in_rw) break ;
 		if (q < 30)
-		{	J w = mkop ("write") ; w ["T"] = stype_name (T) ; if (g.rng.chance (0.5)) w ["fr"] = 1 ; int64_t n = g.rng.range (1, 120) ; w ["n"] = (long long) n ; ops.push (w) ;
+		{	J w = mkop ("write") ; w ["T"] = stype_name (T) ; if (g.rng.chance (0.5)) w ["fr"] = 1 ; int64_t n = G * g.rng.range (1, 120 / G) ; w ["n"] = (long long) n ; ops.push (w) ;
 			wr += n ; if (wr > frames) frames = wr ;
 		}
 		else if (q < 55)
@@ -134,7 +140,9 @@ static J gen_c08 (uint64_t seed, uint64_t idx)
 		{	J s = mkop ("seek") ;
 			int whence = (int) g.rng.below (3) ;
 			int flag = (int) g.rng.pick<int> ({ 0, SFM_READ, SFM_WRITE }) ;
+			if (G > 1 && flag == 0) flag = g.rng.chance (0.5) ? SFM_READ : SFM_WRITE ;		// this codec moves one pointer at a time
 			int64_t tgt = g.rng.chance (0.15) ? frames + (int64_t) g.rng.below (20) : (frames > 0 ? (int64_t) g.rng.below ((uint64_t) frames + 1) : 0) ;
+			if (flag != SFM_READ) tgt -= tgt % G ;
 			if (flag == SFM_READ && tgt > frames) tgt = frames ;
 			if (g.rng.chance (0.05)) tgt = -1 - (int64_t) g.rng.below (3) ;
 			int64_t base = whence == 0 ? 0 : whence == 2 ? frames : (flag == SFM_READ ? rd : wr) ;
@@ -142,10 +150,11 @@ static J gen_c08 (uint64_t seed, uint64_t idx)
 			// say that both pointers end up at the position returned. Half of these seeks are kept (the generator assumes the write
 			// pointer as base only to keep its own bookkeeping going), many of them with offset 0.
 			if (whence == 1 && flag == 0 && rd != wr) { if (g.rng.chance (0.5)) { whence = 0 ; base = 0 ; } else { base = wr ; if (g.rng.chance (0.4)) tgt = wr ; } }
+			if (G > 1 && whence == 1 && flag == 0 && rd != wr) { whence = 0 ; base = 0 ; }
 			s ["off"] = (long long) (tgt - base) ; s ["whence"] = whence ; s ["flag"] = flag ; ops.push (s) ;
 			if (tgt >= 0) { if (flag == SFM_READ) rd = tgt ; else if (flag == SFM_WRITE) wr = tgt ; else { rd = tgt ; wr = tgt ; } }
 		}
-		else if (q < 90 && route != "vio" && frames > 0)
+		else if (q < 90 && route != "vio" && frames > 0 && G == 1)
 		{	J c = mkop ("cmd") ; c ["id"] = "truncate" ; int64_t n = (int64_t) g.rng.below ((uint64_t) frames + 1) ; c ["arg"] = (long long) n ; ops.push (c) ;
 			frames = n ; rd = n ; wr = n ;
 			// a third of the truncations are the last thing done with the handle: nothing rewrites the length before close does
@@ -195,11 +204,12 @@ static Verdict check_c08 (const J &plan)
 // ------------------------------------------------------------------------------------------ C09
 
 static const char *k_bad_kinds [] = { "read_wrong_mode", "write_wrong_mode", "read_misaligned", "write_misaligned", "read_negative", "write_negative", "seek_bad_whence",
-	"seek_wrong_flag", "seek_out_of_range", "seek_nonseekable", "cmd_unknown", "cmd_bad_size", "cmd_after_data", "setstr_read_handle", "setstr_bad_type", "setstr_null", "setchunk_null", "setstr_empty", "seek_beyond_write" } ;
+	"seek_wrong_flag", "seek_out_of_range", "seek_nonseekable", "cmd_unknown", "cmd_bad_size", "cmd_after_data", "setstr_read_handle", "setstr_bad_type", "setstr_null", "setchunk_null", "setstr_empty", "seek_beyond_write",
+	"raw_read_misaligned", "raw_write_misaligned", "setmeta_invalid" } ;
 static const char *k_badopen_kinds [] = { "null_info", "bad_mode", "zero_format", "zero_minor", "invalid_format", "zero_channels", "missing_path", "empty_store", "junk_store", "bad_fd" } ;
 
 static J gen_bad (GenCtx &g)
-{	J b = mkop ("bad") ; b ["kind"] = k_bad_kinds [g.rng.below (19)] ; b ["T"] = stype_name ((int) g.rng.below (4)) ; b ["n"] = (long long) g.rng.range (0, 40) ;
+{	J b = mkop ("bad") ; b ["kind"] = k_bad_kinds [g.rng.below (22)] ; b ["T"] = stype_name ((int) g.rng.below (4)) ; b ["n"] = (long long) g.rng.range (0, 40) ;
 	if (g.rng.chance (0.5)) b ["fr"] = 1 ; if (g.rng.chance (0.5)) b ["beyond"] = 1 ; if (g.rng.chance (0.5)) b ["null"] = 1 ;
 	b ["whence"] = (int) g.rng.pick<int> ({ 3, 7, 99, -1, 0x1000 }) ;
 	return b ;
@@ -732,7 +742,7 @@ static Verdict check_c14 (const J &plan)
 	static const std::map<std::string, std::string> owned = {
 		{ "fd.not_closed", "fd.ownership" }, { "fd.closed_unowned", "fd.ownership" }, { "fd.double_close", "fd.ownership" }, { "audit.other", "fd.ownership" },
 		{ "embed.prefix_touched", "write.bytes" } } ;
-	std::vector<std::string> routes = needs_path_route (*f) ? std::vector<std::string> { "path" } : std::vector<std::string> { "path", "fd", "fdnc", "vio" } ;
+	std::vector<std::string> routes = needs_path_route (*f) ? std::vector<std::string> { "path" } : std::vector<std::string> { "path", "fd", "fdnc", "vio", "stdio" } ;
 	std::vector<Result> rs ;
 	int completed = 0 ;
 	for (auto &rt : routes)
@@ -786,8 +796,8 @@ static Verdict check_c14 (const J &plan)
 				std::vector<Rec> a, b ;
 				for (auto &x : tv) if (x.api != "query:get_embed") a.push_back (x) ;
 				for (auto &x : te) if (x.api != "query:get_embed") b.push_back (x) ;
-				size_t flen = rs.back ().stores.count (store) ? rs.back ().stores.at (store).size () + (size_t) cfg.geti ("emb_t") : 0 ;
-				if (!opened) { Finding fd ; fd.sig = make_sig_raw ("C14", "embed.refused", v.fmt, "embed", "none", flen < 44 ? "shorter_than_44_bytes" : "-") ; fd.detail = "container that supports embedding refused an embedded open" ; v.findings.push_back (fd) ; }
+				size_t flen = rs.back ().stores.count (store) ? (size_t) cfg.geti ("emb_k") + rs.back ().stores.at (store).size () + (size_t) cfg.geti ("emb_t") : 0 ;		// the whole container
+				if (!opened) { Finding fd ; fd.sig = make_sig_raw ("C14", "embed.refused", v.fmt, "embed", "none", flen < 44 ? "container_shorter_than_44_bytes" : "-") ; fd.detail = "container that supports embedding refused an embedded open" ; v.findings.push_back (fd) ; }
 				else if (!transcripts_equal_t (a, b, where)) { Finding fd ; fd.sig = make_sig_raw ("C14", "read.transcript", v.fmt, "embed", "none", "vs_vio") ; fd.detail = "embedded at offset " + std::to_string (cfg.geti ("emb_k")) + " vs plain: " + where ; v.findings.push_back (fd) ; }
 				v.probes ["embed_read_compared"] ++ ;
 			}
